@@ -88,21 +88,195 @@ def join_unit(ctx, src):
     return u
 
 
+def strip_unit(ctx, src):
+    u = Unit(ctx, 'strip')
+    u.raw('#include "stubs/C08_str.h"\n')
+    RS = [R(r'\bs\.find_(first|last)_not_of\(("(?:\\.|[^"\\])*")\)', r'c8_find_\1_not_of(s, \2)', '+'),
+          NPOS, R(r'\bs\.resize\(([^;]*)\);', r"vstr_resize(s, \1, '\\0');", '+'),
+          R(r'\bs = s\.substr\((\w+)\);', r'c8_assign_substr_self(s, \1, C8_NPOS);', None),
+          R(r'\bs = s\.substr\((\w+), ([^;]*)\);', r'c8_assign_substr_self(s, \1, \2);', None),
+          R(r'\bs\.empty\(\)', '(s->size == 0)', '+'), R(r'\bs\[([^\]]+)\]', r's->data[\1]', '+')]
+    u.function(src, HH, r'void strip_trailing_zeroes\(StrT& s\)', new_header='void strip_trailing_zeroes(vstr* s)', body_prefix=' g_shift = 0; ',
+               rules=[R(r"\bs\.find_last_not_of\(('(?:\\.|[^'\\])*')\)", r'c8_find_last_not_ch(s, \1)')] + RS[1:])
+    for fn in ('strip_trailing_whitespace', 'strip_leading_whitespace', 'strip_whitespace'):
+        u.function(src, HH, r'void %s\(StrT& s\)' % fn, new_header='void %s(vstr* s)' % fn, body_prefix=' g_shift = 0; ', rules=RS)
+    LEN = R(r'\b(\w+)\.(?:length|size)\(\)', r'\1->size', '+')
+    CMP = R(r'\bs\.compare\(', 'c8_compare(s, ')
+    u.function(src, CC, r'bool starts_with\(const string& s, const string& start\)', new_header='bool starts_with(const vstr* s, const vstr* start)', rules=[LEN, CMP])
+    u.function(src, CC, r'bool ends_with\(const string& s, const string& end\)', new_header='bool ends_with(const vstr* s, const vstr* end)', rules=[LEN, CMP])
+    return u
+
+
+REPLACE_LOOP = """
+__CPROVER_assigns(read_offset, ret->size, g_oval, g_wit, g_it, g_rstart, g_rfind, g_rout, g_nstart, g_nout, g_rwit, g_rend, g_rnext, g_rnout)
+__CPROVER_loop_invariant(read_offset <= s->size && ret->size <= VSTR_MAXCAP && g_it <= read_offset)
+__CPROVER_loop_invariant(target_size == g_tlen && replacement_size == g_rlen)
+__CPROVER_loop_invariant(g_it == 0 ==> (read_offset == 0 && ret->size == 0))
+__CPROVER_loop_invariant((g_pj < g_it && g_pj == 0) ==> (g_rstart == 0 && g_rout == 0))
+__CPROVER_loop_invariant(g_pj < g_it ==> SEG_DEFS)
+__CPROVER_loop_invariant(g_pj < g_it ==> SEG_SHAPE)
+__CPROVER_loop_invariant(g_pj < g_it ==> SEG_IS_MATCH)
+__CPROVER_loop_invariant(g_pj < g_it ==> SEG_LEFTMOST)
+__CPROVER_loop_invariant(g_pj < g_it ==> SEG_COPIED)
+__CPROVER_loop_invariant(g_pj < g_it ==> SEG_REPLACED)
+__CPROVER_loop_invariant(g_pj < g_it ==> (g_rout <= g_rnout && g_rnout <= ret->size))
+__CPROVER_loop_invariant(g_pj + 1 < g_it ==> (g_nstart == g_rnext && g_nout == g_rnout && g_nstart < s->size))
+__CPROVER_loop_invariant(g_pj + 1 == g_it ==> (read_offset == g_rnext && ret->size == g_rnout))
+__CPROVER_decreases(s->size - read_offset)
+"""
+
+
+def replace_unit(ctx, src):
+    u = Unit(ctx, 'replace')
+    u.raw('#include "contracts/C08_replace.h"\n')
+    GH = (r'size_t \1 = c8_find_buf(s, \2, \3, \4); '
+          r'if (g_it == g_pj) { g_rstart = \3; g_rfind = \1; g_rout = ret->size; g_rwit = g_wit; g_rend = SEG_MATCH ? g_rfind : s->size; '
+          r'g_rnext = SEG_MATCH ? g_rfind + g_tlen : s->size; g_rnout = g_rout + (g_rend - g_rstart) + (SEG_MATCH ? g_rlen : 0); } '
+          r'if (g_pj != C8_NPOS && g_it == g_pj + 1) { g_nstart = \3; g_nout = ret->size; } g_it++;')
+    u.function(src, CC, r'string str_replace_all\(const string& s, const char\* target, const char\* replacement\)',
+               new_header='void str_replace_all(vout* ret, const vstr* s, const char* target, const char* replacement)',
+               body_prefix=' g_it = 0; ',
+               rules=[R(r'\bstrlen\(', 'c8_strlen(', 2), L('string ret;', ''), SIZES[0], NPOS,
+                      R(r'size_t (\w+) = s\.find\((\w+), (\w+), (\w+)\);', GH),
+                      R(r'\bs\.data\(\)', 's->data', '+'), R(r'\bret\.append\(', 'c8_append(ret, ', '+'), L('return ret;', 'return;')],
+               nloops=1, loops={1: REPLACE_LOOP})
+    return u
+
+
+SKIP_STR_LOOP = """
+__CPROVER_assigns(offset)
+__CPROVER_loop_invariant(offset >= g_off0 && (g_off0 <= s->size ==> offset <= s->size) && (g_off0 >= s->size ==> offset == g_off0))
+__CPROVER_loop_invariant(BETWEEN(g_sk, g_off0, offset) ==> %sC8_WS(s->data[g_sk]))
+__CPROVER_decreases(s->size - offset)
+"""
+SKIP_CSTR_LOOP = """
+__CPROVER_assigns(offset)
+__CPROVER_loop_invariant(offset >= g_off0 && offset <= g_len)
+__CPROVER_loop_invariant(BETWEEN(g_sk, g_off0, offset) ==> %s)
+__CPROVER_loop_invariant(offset > g_off0 ==> %s)
+__CPROVER_decreases(g_len - offset)
+"""
+CASE_LOOP = """
+__CPROVER_assigns(verif_i, ret->size, g_oval)
+__CPROVER_loop_invariant(verif_i <= s->size && ret->size == verif_i)
+__CPROVER_loop_invariant((g_rk == 0 && g_obase < verif_i) ==> g_oval == %s(s->data[g_obase]))
+__CPROVER_decreases(s->size - verif_i)
+"""
+
+
+def skip_unit(ctx, src):
+    u = Unit(ctx, 'skip')
+    u.raw('#include "contracts/C08_skip.h"\n')
+    IDX = R(r'\bs\[([^\]]+)\]', r's->data[\1]', '+')
+    for fn, neg in (('skip_whitespace', ''), ('skip_non_whitespace', '!')):
+        u.function(src, CC, r'size_t %s\(const string& s, size_t offset\)' % fn, new_header='size_t %s_str(const vstr* s, size_t offset)' % fn,
+                   body_prefix=' g_off0 = offset; ', rules=[SIZES[0], IDX], nloops=1, loops={1: SKIP_STR_LOOP % neg})
+        u.function(src, CC, r'size_t %s\(const char\* s, size_t offset\)' % fn, new_header='size_t %s_cstr(const char* s, size_t offset)' % fn,
+                   body_prefix=' g_off0 = offset; ', nloops=1, loops={1: SKIP_CSTR_LOOP % (('(s[g_sk] != 0 && !C8_WS(s[g_sk]))', '(s[g_off0] != 0 && !C8_WS(s[g_off0]))') if neg else ('C8_WS(s[g_sk])', 'C8_WS(s[g_off0])'))})
+    for sfx, ty in (('str', r'const string& s'), ('cstr', r'const char\* s')):
+        u.function(src, CC, r'size_t skip_word\(%s, size_t offset\)' % ty,
+                   new_header='size_t skip_word_%s(%s s, size_t offset)' % (sfx, 'const vstr*' if sfx == 'str' else 'const char*'),
+                   rules=[R(r'return skip_whitespace\(s, skip_non_whitespace\(s, (\w+)\)\);',
+                            r'g_mid = skip_non_whitespace_%s(s, \1); return skip_whitespace_%s(s, g_mid);' % (sfx, sfx))])
+    FOR = R(r'for \(char (\w+) : s\) \{', r'for (size_t verif_i = 0; verif_i < s->size; verif_i++) { char \1 = s->data[verif_i];')
+    for fn, spec in (('toupper', 'C8_UPPER'), ('tolower', 'C8_LOWER')):
+        u.function(src, CC, r'string %s\(const string& s\)' % fn, new_header='void %s_str(vout* ret, const vstr* s)' % fn,
+                   rules=[L('string ret;', ''), R(r'\bret\.reserve\(', 'c8_reserve(ret, '), SIZES[0], FOR,
+                          R(r'\bret\.push_back\(', 'c8_push_back(ret, '), R(r'(?<![\w:])::(toupper|tolower)\(', r'c8_\1('), L('return ret;', 'return;')],
+                   nloops=1, loops={1: CASE_LOOP % spec})
+    return u
+
+
+CONTEXT_LOOP = """
+__CPROVER_assigns(z, last_start, char_is_escaped, verif_exc, ret->size, paren_stack.size, paren_stack.top, g_pstart, g_plen, g_nstart, g_depth, g_nops, g_kdepth, g_size0, g_cnt0, g_ls0, g_lastop, g_lastval, g_c, g_top0, g_esc0)
+__CPROVER_loop_invariant(verif_exc == 0 && z <= s->size && last_start <= z && ret->size <= last_start && g_depth == paren_stack.size)
+__CPROVER_loop_invariant(ret->size == 0 ==> last_start == 0)
+__CPROVER_loop_invariant(max_splits != 0 ==> ret->size <= max_splits)
+__CPROVER_loop_invariant(g_pj < ret->size ==> (g_pstart <= s->size && g_plen < s->size - g_pstart && g_pstart + g_plen < last_start))
+__CPROVER_loop_invariant((g_pj < ret->size && g_pj == 0) ==> g_pstart == 0)
+__CPROVER_loop_invariant(g_pj < ret->size ==> s->data[g_pstart + g_plen] == delim)
+__CPROVER_loop_invariant(g_pj + 1 < ret->size ==> g_nstart == g_pstart + g_plen + 1)
+__CPROVER_loop_invariant(g_pj + 1 == ret->size ==> last_start == g_pstart + g_plen + 1)
+__CPROVER_loop_invariant((g_pj < ret->size && g_sk >= g_pstart && g_sk - g_pstart < g_plen && s->data[g_sk] == delim && CTX_CLOSER(delim) == 0) ==> g_kdepth > 0)
+__CPROVER_loop_invariant((g_sk >= last_start && g_sk < z && s->data[g_sk] == delim && CTX_CLOSER(delim) == 0 && !(max_splits != 0 && ret->size >= max_splits)) ==> g_kdepth > 0)
+__CPROVER_decreases(s->size - z)
+"""
+
+
+def context_unit(ctx, src):
+    u = Unit(ctx, 'context')
+    u.raw('#include "contracts/C08_context.h"\n')
+    u.function(src, CC, r'vector<string> split_context\(const string& s, char delim, size_t max_splits\)',
+               new_header='void split_context(vvec* ret, const vstr* s, char delim, size_t max_splits)', ret_zero='',
+               rules=[L('vector<string> ret;', ''), L('vector<char> paren_stack;', 'cstack paren_stack; c8_stk_init(&paren_stack);'),
+                      SIZES[0], R(r'\bret\.size\(\)', 'ret->size', '+'), R(r'\bs\[([^\]]+)\]', r's->data[\1]', '+'),
+                      R(r'\bparen_stack\.empty\(\)', '(paren_stack.size == 0)', '+'), R(r'\bparen_stack\.size\(\)', 'paren_stack.size', '+'),
+                      R(r'\bparen_stack\.back\(\)', 'c8_stk_back(&paren_stack)', '+'), R(r'\bparen_stack\.pop_back\(\)', 'c8_stk_pop(&paren_stack)', '+'),
+                      R(r'\bparen_stack\.push_back\(', 'c8_stk_push(&paren_stack, ', '+'),
+                      R(r'\bret\.(?:emplace|push)_back\(s\.substr\((\w+)\)\);', r'c8_push_substr(ret, s, \1, C8_NPOS);'),
+                      R(r'\bret\.(?:emplace|push)_back\(s\.substr\((\w+), ([^;]*?)\)\);', r'c8_push_substr(ret, s, \1, \2);'),
+                      R(r'for \(z = 0; ([^;]*); z\+\+\) \{',
+                        r'for (z = 0; \1; c8_ctx_check(&paren_stack, char_is_escaped, ret->size, last_start, z, delim, max_splits), z++) { '
+                        r'CTX_SNAPSHOT(paren_stack, char_is_escaped, ret->size, last_start, s->data[z], z)'),
+                      L('return ret;', 'return;')],
+               may_throw=['c8_push_substr'], nloops=1, loops={1: CONTEXT_LOOP})
+    return u
+
+
 def plan(ctx):
     src = Source(ctx.src)
     groups = []
     us = split_unit(ctx, src)
     us.write()
     ctx.functions_under_contract = list(us.functions)
-    RP = lambda mode: Replay(driver='C08/strings.cc', mode=mode, sources=ALL_LIB)
+    RP = lambda mode: Replay(driver='C08/strings.cc', mode=mode, sources=ALL_LIB, small_define='VERIF_SMALL')
     groups.append(Group(name='split', harness='harness/C08/split.c', entry='h_split', function='split(const string&, char, size_t)',
-                        enforce='split', replace=['c8_find_ch'], loops=True, kind='loop-contract', replay=RP('split'), timeout=300, stage1=90))
+                        enforce='split', replace=['c8_find_ch'], loops=True, kind='loop-contract', replay=RP('split'), timeout=300, stage1=90, fallback_unwind=8))
     uj = join_unit(ctx, src)
     uj.write()
     ctx.functions_under_contract += uj.functions
     for fn, what in (('join_delim', 'join(items, delim)'), ('join_plain', 'join(items)')):
         groups.append(Group(name=fn, harness='harness/C08/split.c', entry='h_' + fn, function=what + ' [ItemContainerT = vector<string>]',
-                            enforce=fn, loops=True, kind='loop-contract', replay=RP(fn), timeout=300, stage1=90))
+                            enforce=fn, loops=True, kind='loop-contract', replay=RP(fn), timeout=300, stage1=90, fallback_unwind=5))
+    groups.append(Group(name='lemma.join_split', harness='harness/C08/split.c', entry='l_join_split', function='join(split(s, d, m), d) == s',
+                        replace=['split', 'join_delim'], kind='lemma', min_post=6, replay=RP('lemma_join_split')))
+    ust = strip_unit(ctx, src)
+    ust.write()
+    ctx.functions_under_contract += ust.functions
+    HS = 'harness/C08/strip.c'
+    FIND = ['c8_find_first_not_of', 'c8_find_last_not_of', 'c8_find_last_not_ch', 'vstr_resize']
+    for fn in ('strip_trailing_zeroes', 'strip_trailing_whitespace', 'strip_leading_whitespace', 'strip_whitespace'):
+        groups.append(Group(name=fn, harness=HS, entry='h_' + fn, function=fn + '<std::string>', enforce=fn, replace=FIND, replay=RP(fn), min_post=5))
+    for fn in ('starts_with', 'ends_with'):
+        groups.append(Group(name=fn, harness=HS, entry='h_' + fn, function=fn, enforce=fn, replace=['c8_compare'], replay=RP(fn), min_post=2))
+    ur = replace_unit(ctx, src)
+    ur.write()
+    ctx.functions_under_contract += ur.functions
+    groups.append(Group(name='str_replace_all', harness='harness/C08/replace.c', entry='h_str_replace_all', function='str_replace_all (non-empty target)',
+                        enforce='str_replace_all', replace=['c8_find_buf', 'c8_strlen'], loops=True, kind='loop-contract', replay=RP('str_replace_all'),
+                        timeout=300, stage1=90, fallback_unwind=8, min_post=9))
+    uk = skip_unit(ctx, src)
+    uk.write()
+    ctx.functions_under_contract += uk.functions
+    HK = 'harness/C08/skip.c'
+    for sfx, what in (('str', 'const std::string&'), ('cstr', 'const char*')):
+        for fn in ('skip_whitespace', 'skip_non_whitespace'):
+            groups.append(Group(name='%s[%s]' % (fn, sfx), harness=HK, entry='h_%s_%s' % (fn, sfx), function='%s(%s, size_t)' % (fn, what),
+                                enforce='%s_%s' % (fn, sfx), loops=True, kind='loop-contract', replay=RP(fn + ('_c' if sfx == 'cstr' else '')), min_post=3, fallback_unwind=8))
+        groups.append(Group(name='skip_word[%s]' % sfx, harness=HK, entry='h_skip_word_' + sfx, function='skip_word(%s, size_t)' % what,
+                            enforce='skip_word_' + sfx, replace=['skip_whitespace_' + sfx, 'skip_non_whitespace_' + sfx],
+                            replay=RP('skip_word' + ('_c' if sfx == 'cstr' else '')), min_post=4))
+    for fn in ('toupper', 'tolower'):
+        groups.append(Group(name=fn, harness=HK, entry='h_%s_str' % fn, function='%s(const std::string&)' % fn, enforce=fn + '_str', loops=True,
+                            kind='loop-contract', replay=RP(fn), min_post=2, fallback_unwind=8))
+    ux = context_unit(ctx, src)
+    ux.write()
+    ctx.functions_under_contract += ux.functions
+    groups.append(Group(name='split_context', harness='harness/C08/context.c', entry='h_split_context', function='split_context',
+                        enforce='split_context', loops=True, kind='loop-contract', replay=RP('split_context'), timeout=300, stage1=90, fallback_unwind=8, min_post=12))
+    groups.append(Group(name='lemma.join_split_context', harness='harness/C08/context.c', entry='l_join_split_context',
+                        function='join(split_context(s, d, m), d) == s when accepted', replace=['split_context', 'join_delim'], kind='lemma', min_post=6,
+                        replay=RP('lemma_join_split_context')))
     return groups
 
 
